@@ -54,6 +54,7 @@ def instances(tier, rng):
                 extra.append({"cons": [p[:2]], "cons_kind": "node"})
             if cls.startswith("kLeastAbs") or cls.startswith("kMinPathError"):
                 extra.append({"escale": [[rng.choice(u["nodes"]), 1, 2]]})
+                extra.append({"escale": [[rng.choice(u["nodes"]), 0, 1]]})
             for cfg in feats + rng.sample(extra, min(len(extra), 2 if quick else len(extra))):
                 r = C.base(u, cls, "node")
                 for k2, v in cfg.items():
